@@ -7,6 +7,7 @@ Registry for viral attribute propagation rules as defined by the VTL 2.2
 in :mod:`vtlengine.ViralPropagation.sql`.
 """
 
+import threading
 from dataclasses import dataclass, field
 from typing import Any, Dict, List, Optional
 
@@ -70,20 +71,21 @@ class ViralPropagationRegistry:
         self._valuedomain_rules.clear()
 
 
-# Module-level accessor for operators to use.
-# The Interpreter sets this at the start of each run() call.
-_current_registry: Optional[ViralPropagationRegistry] = None
+# Per-thread accessor for operators to use.
+# The Interpreter sets this at the start of each run() / semantic_analysis() call. The registry
+# is kept per thread: concurrent calls from different threads must not see each other's rules.
+_local = threading.local()
 
 
 def get_current_registry() -> ViralPropagationRegistry:
-    """Get the current viral propagation registry."""
-    global _current_registry  # noqa: PLW0603
-    if _current_registry is None:
-        _current_registry = ViralPropagationRegistry()
-    return _current_registry
+    """Get the viral propagation registry of the current thread."""
+    registry: Optional[ViralPropagationRegistry] = getattr(_local, "registry", None)
+    if registry is None:
+        registry = ViralPropagationRegistry()
+        _local.registry = registry
+    return registry
 
 
 def set_current_registry(registry: ViralPropagationRegistry) -> None:
-    """Set the current viral propagation registry (called by Interpreter)."""
-    global _current_registry  # noqa: PLW0603
-    _current_registry = registry
+    """Set the viral propagation registry of the current thread (called by Interpreter)."""
+    _local.registry = registry
